@@ -582,6 +582,11 @@ func main() {
 	t0 := time.Now()
 	nontrivial := 0
 	totalOps, totalOverlap, totalRun := 0, 0, 0
+	rounds, emitted := 0, 0
+	eventBudget := hx.Atoi(args["events"], 90000)
+	if tier == "thorough" && args["events"] == "" {
+		eventBudget = 900000
+	}
 	procsChoices := []int{1, 2, 3, 4, 8, runtime.NumCPU()}
 	for k := 0; time.Since(t0) < budget; k++ {
 		r := &round{seed: rnd.U64()}
@@ -634,9 +639,7 @@ func main() {
 		totalOverlap += overlap
 		totalOps += len(events) / 2
 		totalRun += r.nA*r.opsA + r.nB*r.opsB + r.nR*r.opsR
-		if r.nA+r.nB >= 2 && overlap > 0 {
-			nontrivial++
-		}
+		nontriv := r.nA+r.nB >= 2 && overlap > 0
 		cfg := fmt.Sprintf("round %d seed=%d K=%d writersA=%d writersB=%d readers=%d GOMAXPROCS=%d ops=%d reads-overlapping-a-commit=%d dur=%s",
 			k, r.seed, r.K, r.nA, r.nB, r.nR, r.procs, len(events)/2, overlap, dur.Round(time.Millisecond))
 		human := cfg
@@ -645,6 +648,19 @@ func main() {
 		}
 		if s := symptom(events, r.G()); s != "" {
 			human += " SYMPTOM: " + s
+		}
+		rounds++
+		// Every round runs under the race detector and gets the informal pre-check; the histories handed to
+		// the verified checker are budgeted (coqc elaborates ~1500 events/s): rounds with any symptom always,
+		// the others evenly over the run until the event budget is used.
+		suspicious := r.bad.Load() || strings.Contains(human, "SYMPTOM")
+		due := float64(emitted) < float64(eventBudget)*float64(time.Since(t0))/float64(budget)
+		if !suspicious && !due {
+			continue
+		}
+		emitted += len(events)
+		if nontriv {
+			nontrivial++
 		}
 		term := fmt.Sprintf("(%d, %s, %s)", r.G(), hx.ListOf(events, coqEvent), hx.Bool(r.bad.Load()))
 		cs.Add(term, human)
@@ -662,6 +678,9 @@ func main() {
 	st.Evaluations = cs.Len()
 	st.DistinctNontrivial = nontrivial
 	st.Extra = map[string]any{
+		"rounds_executed":               rounds,
+		"rounds_checked_by_coq":         cs.Len(),
+		"events_checked_by_coq":         emitted,
 		"operations_recorded":           totalOps,
 		"operations_executed_upper":     totalRun,
 		"reads_overlapping_a_commit":    totalOverlap,
